@@ -4,13 +4,14 @@ go 1.24.0
 
 require (
 	github.com/pion/interceptor v0.0.0
+	github.com/pion/logging v0.2.4
+	github.com/pion/rtcp v1.2.17
 	github.com/pion/rtp v1.10.5
 )
 
 require (
-	github.com/pion/logging v0.2.4 // indirect
 	github.com/pion/randutil v0.1.0 // indirect
-	github.com/pion/rtcp v1.2.17 // indirect
+	golang.org/x/time v0.14.0 // indirect
 )
 
 replace github.com/pion/interceptor => /repo
